@@ -7,6 +7,18 @@ Import ListNotations.
 Section SrcPoly.
 Context {A : Arith}.
 
+(* src/polynomial/mod.rs : impl < T > Polynomial < T > :: fn is_zero *)
+Definition s_is_zero (self_ : (list (T A))) : res bool :=
+  let* o2 := for_ret 0 (length self_) (fun i_ (_ : unit) =>
+          let* x1 := rd self_ i_ in
+          if (negb (eqb x1 (@zero A)))
+          then (Ok (inr false))
+          else (Ok (inl tt))) tt in
+  match o2 with
+  | inl _ => Ok true
+  | inr r3 => Ok r3
+  end.
+
 (* src/polynomial/mod.rs : impl < T > Polynomial < T > :: fn eval *)
 Definition s_peval (self_ : (list (T A))) (x_ : (T A)) : res (T A) :=
   let* degree_ := unwrap_opt (pdegree self_) in
